@@ -838,6 +838,7 @@ fn same_class(env: &Env, plan: &ProcPlan, class: &str) -> bool {
 pub fn minimise(env: &Env, plan: &ProcPlan, class: &str) -> (ProcPlan, usize) {
     let mut budget = 250usize;
     let start = budget;
+    start_minimisation(90);
     let mut best = plan.clone();
     // simpler environment first
     for f in [
